@@ -5,7 +5,10 @@ From Helm Require Import Engine.Types Engine.Eff Engine.Ops Engine.Skeleton Engi
                          Engine.SkeletonModel Engine.SkeletonProofs.
 Import ListNotations.
 
-Lemma check_install : check_op OInstall expected rexpected = true.
+Lemma check_ok_install : check_op_ok OInstall expected rexpected = true.
+Proof. vm_cast_no_check (eq_refl true). Qed.
+
+Lemma check_fail_install : check_op_fail OInstall expected rexpected = true.
 Proof. vm_cast_no_check (eq_refl true). Qed.
 
 Lemma check_all_flags_install : check_op_all_flags OInstall expected rexpected = true.
